@@ -77,6 +77,12 @@ def _work(args):
     }
 
 
+def _selftest():
+    load_contracts()
+    from engine import selftest
+    return selftest.run()
+
+
 def select(prop):
     keys = []
     for k in S.ORDER:
@@ -102,6 +108,9 @@ def run_check(prop, tier='quick', seed=0, jobs=None, verbose=False):
     tus = sorted({S.REGISTRY[k].tu for k in keys})
     with mp.Pool(min(len(tus), 16) or 1) as pool:
         pool.map(astdb.load_tu_quiet, tus)
+    # the lemma schemas the contracts instantiate are re-proved on every run, in a process of their own
+    stpool = mp.Pool(1)
+    st_async = stpool.apply_async(_selftest)
     with mp.Pool(jobs, maxtasksperchild=1) as pool:
         results = pool.map(_work, [(k, seed, timeout_ms, known) for k in keys], chunksize=1)
     # an obligation left undecided is re-tried once with another seed and twice the time before anything is
@@ -124,7 +133,15 @@ def run_check(prop, tier='quick', seed=0, jobs=None, verbose=False):
                 if o['status'] == 'unknown' and st2.get(o['name']) and all(x == 'discharged' for x in st2[o['name']]):
                     o['status'] = 'discharged'
                     o['detail'] = (o['detail'] + ' (discharged on retry with seed+%d, %dx time)' % (dseed, mult)).strip()
+    try:
+        SELFTEST[:] = st_async.get(timeout=600)
+    except Exception as e:
+        SELFTEST[:] = [('selftest', False, 'did not finish: %s' % e)]
+    stpool.terminate()
     return finish(prop, tier, seed, results, known, time.time() - t0, verbose)
+
+
+SELFTEST = []
 
 
 def finish(prop, tier, seed, results, known, wall, verbose):
@@ -212,6 +229,10 @@ def finish(prop, tier, seed, results, known, wall, verbose):
         'violations': len(viol),
     }
     code = 0
+    ev['coverage']['lemma_schemas'] = {'checked': len(SELFTEST), 'failed': [n for n, ok, _ in SELFTEST if not ok]}
+    for n, ok, how in SELFTEST:
+        if not ok:
+            undecided.append('lemma schema %s is not proved (%s): the trusted base is broken' % (n, how))
     seenk = set()
     for o in known_hits:
         for kf in known:
